@@ -118,6 +118,7 @@ fn invariant(f: &Frame) -> bool {
 // @assume representation invariant I of the register stack (established by Frame::new, preserved by every operation: asserted here)
 // @kani --no-memory-safety-checks --no-assertion-reach-checks
 // @mem 10
+// @timeout 1200
 #[kani::proof]
 #[kani::unwind(6)]
 #[kani::stub(std::hash::RandomState::new, stub_random_state)]
@@ -172,6 +173,7 @@ fn c05_frame_temporaries() {
 // @bound arbitrary frame (as above), target size 0..=count+1
 // @kani --no-memory-safety-checks --no-assertion-reach-checks
 // @mem 10
+// @timeout 1200
 #[kani::proof]
 #[kani::unwind(6)]
 #[kani::stub(std::hash::RandomState::new, stub_random_state)]
